@@ -38,6 +38,9 @@ def try_replay(replay, env):
             return False, {"note": "candidate rejected by a validity gate (gate behaviour is C09's subject)", "gate": str(e)}
         tb = traceback.extract_tb(e.__traceback__)
         inner = tb[-1].filename if tb else ""
+        if tb and tb[-1].name == "assert_valid_covariance":
+            # a candidate the validity gate refuses (e.g. a non-positive noise value the obligation did not constrain)
+            return False, {"note": "candidate rejected by a validity gate (gate behaviour is C09's subject)", "gate": str(e)[:200]}
         if not any(REPO in fr.filename for fr in tb):
             raise HarnessError(f"replay failed inside the harness: {type(e).__name__}: {e} at {inner}") from e
         return True, {"exception": f"{type(e).__name__}: {e}", "trace": traceback.format_exc()[-1200:]}
